@@ -59,13 +59,13 @@ CLAIMED = {
     },
 
     "C19": {
-        "text": 'Decided on every run: homogeneity of the cost model by a degree (dimension) analysis on polynomial normal forms: every emitted cost column is one product term with exactly one n_instances and no offset, energies degree 1 in per-action energy / leak power, latency degree -1 in throughput, component cost producers only multiply; plus a census of absolute-magnitude float literals on the cost path against a frozen table. Scale-invariance of the optimiser itself is not decided.',
+        "text": 'Decided on every run: homogeneity of the cost model by a degree (dimension) analysis on polynomial normal forms: every emitted cost column is one product term with exactly one n_instances and no offset, energies degree 1 in per-action energy / leak power, latency degree -1 in throughput, component cost producers only multiply; plus a census of absolute-magnitude float literals on the cost path against a frozen table. Scale-invariance of the optimiser itself is not decided. np.allclose / isclose with an implicit or explicit absolute tolerance on the cost path is an absolute threshold like a literal.',
         "design_ref": "DESIGN.md section 3, C19", "note": _NOTE,
         "technique": 'static analysis: degree/dimension analysis over polynomial normal forms, literal census (ast)',
     },
 
     "C24": {
-        "text": 'Narrow claim, decided on every run: a non-box set is never sized with the box formula (box formula only under is_box(), otherwise card() behind a support check, non-constant bounds raise), sibling agreement of the inclusive extent (max - min + 1) and of the occupancy formula (substitute extent - 1, add 1) in normal form, and save/restore pairing of the temporary shape overwrite on every non-raising path. Numeric equality with enumeration is not decided.',
+        "text": 'Narrow claim, decided on every run: a non-box set is never sized with the box formula (box formula only under is_box(), otherwise card() behind a support check, non-constant bounds raise), sibling agreement of the inclusive extent (max - min + 1) and of the occupancy formula (substitute extent - 1, add 1) in normal form, and save/restore pairing of the temporary shape overwrite on every non-raising path. Numeric equality with enumeration is not decided. Memoised geometry helpers key on everything the value depends on (an Einsum name does not identify its projections); every access emits its own bound to the iteration-space string.',
         "design_ref": "DESIGN.md section 3, C24", "note": _NOTE,
         "technique": 'static analysis: guard-dominates-return, sibling cross-check on normal forms, save/restore pairing on the CFG (ast)',
     },
@@ -125,7 +125,7 @@ CLAIMED = {
         "text": "Decided on every run: full-coverage parsing of the concise form (regex ASTs decide anchoring; findall must be backed by a residue check whose class covers "
                 "identifier and bracket characters; whitespace-between-names test precedes stripping), all reject paths raise, and merge rules (collision/unknown tensor "
                 "raise, name and tensor list from the string, shorthand sibling agreement, output flag only on the left-hand side). Right level: 'malformed input is "
-                "rejected' quantifies over all strings; partial-match APIs without a residue check are a structural defect.",
+                "rejected' quantifies over all strings; partial-match APIs without a residue check are a structural defect. Every store into the projection dict is dominated by a raising duplicate test, explicit expressions are tested for emptiness, separators between accesses are validated, and the Einsum string reaches the parser as written.",
         "design_ref": "DESIGN.md section 3, C23", "note": _NOTE + " The stdlib re._parser is used to read regex structure.",
         "technique": "static analysis: regex-AST anchoring analysis + API-usage rule (total match) + reject-path rule (ast/CFG)",
     },
@@ -134,7 +134,7 @@ CLAIMED = {
                 "literal; comparison dtype never narrower than the input (known finding F-C11-2); exact shape of the window dominance predicate; block-constant "
                 "coherence at all shift/length sites; tie-safe presort requirement for the append-only window (known finding F-C11-3); goal-table agreement and "
                 "single negation of max columns along both chains; dedup default/keep-first at all call sites. Each is a necessary condition for the stated "
-                "robustness to +inf, ties, mixed magnitudes and dtype; the exact output set for every matrix is a value property and is not decided.",
+                "robustness to +inf, ties, mixed magnitudes and dtype; the exact output set for every matrix is a value property and is not decided. Also: every diff column enters the group id (N11), every per-column kernel loop covers all columns (N9), no aliased strided out= sign flip of max columns (N10, genuine defect with the pinned numpy).",
         "design_ref": "DESIGN.md section 3, C11",
         "note": _NOTE + " Two genuine defects are recorded as known findings (known_findings.json) rather than repaired.",
         "technique": "static analysis: control-dependence of acceptance stores, seed/constant propagation, predicate-shape and table-agreement rules (ast/CFG)",
@@ -144,7 +144,7 @@ CLAIMED = {
                 "selected by comparing its name with the requested Einsum name; (T2) every caller of get_renames_for_einsum passes the Einsum's own name; "
                 "(T3) defaults are appended only from the entry named default and only when absent, top-level renames never override an Einsum's own; "
                 "(T4) an expected_count mismatch raises. Thorough tier adds a mypy-as-library typed confirmation of T1. Right level: the defect class "
-                "(type-incoherent lookup, literal key) is decidable from types and dataflow, and no test has per-Einsum top-level renames.",
+                "(type-incoherent lookup, literal key) is decidable from types and dataflow, and no test has per-Einsum top-level renames. expected_count is tested by identity (a count of 0 is enforced).",
         "design_ref": "DESIGN.md section 3, C29",
         "note": _NOTE + " mypy 2.3.1 from the repository's own environment is additionally trusted in the thorough tier.",
         "technique": "static analysis: annotation/type-directed lookup lint + call-argument dataflow + guard (control-dependence) rules over ast/CFG; mypy-as-library confirmation",
@@ -153,7 +153,7 @@ CLAIMED = {
         "text": "Order typestate (ORDERED / TAGGED / UNORDERED) over accelforge/util/parallel.py decided on every run: every list returned on a non-generator "
                 "path is a comprehension over the job list or a pre-sized list filled by indexed store from an index-tagged stream; the dict path pairs each "
                 "value with its own key end to end; the job list is only rebound order-preservingly. Exhaustive over all return statements of parallel(). "
-                "Right level: positional correctness under arbitrary completion order is a shape property of how results are stored, not of any schedule a test can force.",
+                "Right level: positional correctness under arbitrary completion order is a shape property of how results are stored, not of any schedule a test can force. A stream bound to a local is followed to its consumer: zip over an unordered stream, or a gathering helper returning dict values in arrival order, is the violation.",
         "design_ref": "DESIGN.md section 3, C32",
         "note": _NOTE + " joblib is trusted to yield each submitted job's return value exactly once.",
         "technique": "static analysis: typestate/shape analysis of result streams (ast + CFG control dependence)",
@@ -172,7 +172,7 @@ CLAIMED = {
         "text": "Decided on every run: the instance-count accumulator in Spec.calculate_component_costs is a product containing the component's own fanout and "
                 "every admitted parent's fanout; the parent guard, evaluated over the architecture class hierarchy, rejects Compute and admits every Spatialable "
                 "non-compute class; Fork/Array copy the parent list; totals normalise to per-instance x the same count; architecture totals sum over all "
-                "components of all branches. Right level: which nodes count as ancestors is decided by isinstance guards and list aliasing, both structural.",
+                "components of all branches. Right level: which nodes count as ancestors is decided by isinstance guards and list aliasing, both structural. Each recursive call of iterate_hierarchically is evaluated for the classes that reach it (an Array hands each element its own copy); totals are never conditional on the already-calculated markers.",
         "design_ref": "DESIGN.md section 3, C26",
         "note": _NOTE,
         "technique": "static analysis: factor analysis on a polynomial normal form + guard evaluation over the class hierarchy + aliasing (copy) rule (ast/CFG)",
@@ -182,7 +182,7 @@ CLAIMED = {
                 "from its own previous value through scale factors is guarded by an 'already calculated' marker that is tested before and set after the "
                 "store with the same token, and Spec.calculate_component_costs copies the marker with each written-back value. Exhaustive over the "
                 "4 producers and 4 write-backs; this is the right level because double scaling is visible in the read-modify-write shape of the code, "
-                "while no test calls the API twice.",
+                "while no test calls the API twice. Producers add their marker to the set and never replace it.",
         "design_ref": "DESIGN.md section 3, C27",
         "note": _NOTE,
         "technique": "static analysis: def-use taint + CFG dominance/post-dominance typestate rule (ast)",
